@@ -180,6 +180,10 @@ def polled_run(job, kill=None, after=None):
         shutil.rmtree(d, ignore_errors=True)
 
 
+def time_of(events, name):
+    return next((e['t'] for e in events if e['ev'] == name), None)
+
+
 def tok_digest(impl, text):
     toks = []
     for sh in impl.parse_shapes(text):
@@ -292,7 +296,8 @@ def run(ctx):
                 problems.append('the file left behind is not the last accepted input')
         elif done:
             problems.append('output file missing although a rewrite had completed')
-        if kind == 'SIGINT' and r['killed']:
+        finished = any(e['ev'] == 'exit' and e.get('code') == 0 for e in r['events'])
+        if kind == 'SIGINT' and r['killed'] and not (r['rc'] == 0 and finished and time_of(r['events'], 'strategy_end') is not None):
             if r['rc'] != 1 or '[ddsmt] interrupted' not in r['stdout']:
                 problems.append(f'after SIGINT: exit status {r["rc"]}, stdout tail {r["stdout"][-100:]!r}')
             if r['tmp_left']:
